@@ -9,7 +9,8 @@ from vlib.harness import ok, skip, viol
 PID = "C11"
 RULE = ("Generated programs (the C02 generator: all instruction forms, data directives, labels, EQU, any origin or none) "
         "optionally padded by an RMB/FCB block to sizes 300 / 3000 / 9000 or to an exact image length on a tape-block, "
-        "sector or granule edge (254..257, 509..511, 2290..2309, 4596..4611, 6902..6912), or to 20-60 KB, with or "
+        "sector or granule edge (254..257, 509..511, 2290..2309, 4596..4611, 6902..6912), or to 20-64 KB by a table of "
+        "distinct words (enumerated at 22-28 granules), with or "
         "without NAM (1-12 letters/digits in either case), with or without --name, with END / END label / no END, "
         "are assembled by a real assembler.py process with each non-empty subset of {--to_bin, --to_cas, --to_dsk}. "
         "Oracle: reference image = in-process Program on the same lines; .bin == image byte for byte; the independent "
@@ -23,7 +24,7 @@ ASSUMPTIONS = [
     "vlib/casref.py and vlib/dskref.py read the outputs",
 ]
 HEALTH = {"nam": 0.12, "cli_name_only": 0.06, "no_name": 0.02, "multi_switch": 0.12, "edge_length": 0.06}
-EXHAUSTIVE = {}
+EXHAUSTIVE = {"quick": ["images of 50600..64000 bytes (22-28 granules) x {--to_dsk, all three switches}"], "thorough": ["as quick"]}
 
 # image lengths on the container formats' edges: tape block (255), disk sector (256) and granule (2304) with the
 # 10 header/trailer bytes of a machine-language file on disk
@@ -40,7 +41,11 @@ _case = st.fixed_dictionaries(dict(
 
 
 def enumerated(tier, seed):
-    return []
+    # images of 22 / 23 / 24 / 26 / 28 granules (the disk's default allocation order repeats itself from the 23rd on)
+    tiny = {"org": 0x0100, "stmts": [{"lab": "", "k": "org", "addr": 0x0100}, {"lab": "L0", "k": "imm8", "mn": "LDA", "val": proggen.lit(1)}]}
+    for bulk in (50600, 50670, 50680, 52480, 57000, 64000):
+        for sw in (["dsk"], ["bin", "cas", "dsk"]):
+            yield dict(prog=tiny, nam="BIGPROG", cli_name=None, nam_pos=0, bulk=bulk, target_len=None, switches=sw, end="plain")
 
 
 _big_case = st.fixed_dictionaries(dict(
@@ -69,7 +74,16 @@ def build(case):
         base = driver.assemble(proggen.render(dict(prog, stmts=stmts)), timeout=120)
         if base.kind == "OK" and len(base.image) + 2 <= case["target_len"]:
             bulk = case["target_len"] - len(base.image) - 1
-    if bulk:
+    if bulk >= 20000:
+        # large images carry data that differs from granule to granule (a table of words), so that a chunk stored in
+        # the wrong place or twice cannot go unnoticed
+        words = (bulk - 1) // 2
+        for i in range(0, words, 8):
+            stmts.append({"lab": "", "k": "fdb", "vals": [proggen.lit((j * 7 + 3) % 65536) for j in range(i, min(i + 8, words))]})
+        if (bulk - 1) % 2:
+            stmts.append({"lab": "", "k": "fcb", "vals": [proggen.lit(0x55)]})
+        stmts.append({"lab": "", "k": "fcb", "vals": [proggen.lit(0xAA)]})
+    elif bulk:
         stmts.append({"lab": "", "k": "rmb", "val": proggen.lit(bulk)})
         stmts.append({"lab": "", "k": "fcb", "vals": [proggen.lit(0xAA)]})
     if case["nam"]:
